@@ -456,6 +456,10 @@ fn sweep(mode: Mode, ctx: &mut Ctx, rep: &mut Report) {
                     continue;
                 }
                 for wild in 0..3 {
+                    // quick tier, M = 3: the neutral-wildcard kind only for every 64th matrix
+                    if m == 3 && wild == 2 && ctx.quick() && mi % 64 != 1 {
+                        continue;
+                    }
                     let idx = base;
                     base += 1;
                     if !ctx.mine(idx) {
